@@ -5,7 +5,7 @@ TIER="${1:-quick}"; shift
 IDS="$*"; [ -z "$IDS" ] && IDS=$(ls seeded | grep '^C')
 miss=0
 for id in $IDS; do
-  r=$(scripts/seed_eval.sh $id seeded/$id/patch.diff $TIER 2>&1 | grep '^SEED' | tail -1)
+  r=$(scripts/seed_eval.sh $id "$PWD/seeded/$id/patch.diff" $TIER 2>&1 | grep '^SEED' | tail -1)
   echo "$r"
   case "$r" in *CAUGHT*) ;; *) miss=1;; esac
 done
